@@ -49,11 +49,11 @@ SPEC = dict(
     ),
     bound=dict(
         quick=(
-            "15 aggregators in 29 configurations; all {-1,0,1} matrices of shapes <= 2x3 and 3x1, 3x2 plus D(seed) shapes 1x1, 1x3, "
+            "15 aggregators in 29 configurations (CAGrad(0), CAGrad(2) only in the reject cases); all {-1,0,1} matrices of shapes <= 2x3 and 3x1, 3x2 plus D(seed) shapes 1x1, 1x3, "
             "3x1, 2x3, 3x3, 4x2, 5x3; CAGrad on all shapes <= 2x2, 1x3, 3x1 and on the structural sublist canonical_ternary of 2x3, 3x2; "
             "SCALES32 x float32, SCALES64 x float64; histories <= 3 over two 4-matrix alphabets; seeds 0..7"
         ),
-        thorough="as quick but all {-1,0,1} matrices up to 3x3 for every aggregator including CAGrad",
+        thorough="as quick but all {-1,0,1} matrices up to 3x3 for every aggregator including CAGrad(0.5); CAGrad(0), CAGrad(2) on all shapes <= 2x2, 1x3, 3x1",
     ),
     assumptions=[
         "matrices off the finite alphabets are not covered; scales are the rungs of SCALES32 / SCALES64 only",
@@ -62,6 +62,7 @@ SPEC = dict(
         "IMTLG homogeneity: well-posed inputs |1^T G^+ d| max d >= 1e-6 (1e-3 in float32) with tolerance amplified by its inverse; exactly stationary inputs are asserted in float64 only (guard-stationary)",
         "CAGrad homogeneity only on reference-certified non-stationary inputs (its zero-at-stationarity escape is a discontinuity), tolerance 1e-6 s = 100 x Clarabel's 1e-8 (1e-3 s in float32)",
         "ConFIG homogeneity only where |pinv(units) w| >= 1e-6 |w| (1e-3 in float32): it normalises that vector (exact-zero test), tolerance amplified by the inverse",
+        "tolerances relative to s = sigma_max(J): 1e-9 s (float64), 2e-4 s (float32); UPGrad/DualProj float32 1e-3 s (eps32 / reg_eps)",
         "Krum homogeneity under score ties: the output must be the mean of an admissible selection",
         "draws of PCGrad/GradDrop/Random are replayed from a fixed small alphabet of scripts (the same script on both sides)",
     ],
@@ -419,6 +420,8 @@ def _scale_one(cfg, J, J0, F, dtype, res):
                 res["dropped"] += 1
                 res["counters"]["drop_below_norm_eps"] += 1
                 continue
+            if name in ("UPGrad", "DualProj") and dtype == "float32":
+                tol = 1e-3 * s  # conditioning of the regularised QP: eps(float32) / reg_eps = 1.2e-7 / 1e-4
             if name == "CAGrad":
                 if F.min_norm < 1e-2:
                     stable = False
@@ -507,7 +510,8 @@ REJECTING = {"UPGrad", "DualProj", "MGDA", "PCGrad", "CAGrad", "IMTLG", "Aligned
 
 
 def _row_requirement(cfg, m_built):
-    """(kind, set of accepted row counts among 0..hi, hi) for the configuration built for m_built rows."""
+    """('exact', m) when the configuration fixes the row count (weights / pref vector / leak of length m), ('min', r) when it
+    documents a minimum r (Krum: n_byzantine + 3 and n_selected; TrimmedMean: 2 trim_number + 1), else (None, None)."""
     key, name = cfg["key"], cfg["name"]
     if name == "Constant" or "[inc]" in key or "[tiny]" in key or "[leak]" in key:
         return "exact", m_built
